@@ -114,6 +114,9 @@ type SimIdP struct {
 	seq       int
 	mu            sync.Mutex // only for the HTTP front (server-level worlds)
 	DiscoveryHits int
+	// AfterProcess runs once, right after the provider has processed (committed) the next token request and before
+	// the answer travels back
+	AfterProcess func()
 	JWKSHits      int
 	// Tagger returns the calling thread and scheduler step (schedx).
 	Tagger func() (int, int)
@@ -196,6 +199,16 @@ func (p *SimIdP) RoundTrip(req *http.Request) (*http.Response, error) {
 	p.TokenReqs = append(p.TokenReqs, tr)
 
 	status, respBody := p.process(tr, mode)
+	if p.AfterProcess != nil {
+		p.AfterProcess()
+		p.AfterProcess = nil
+	}
+	// as net/http would: a request bound to a context that has been cancelled meanwhile fails, the answer is lost
+	if err := req.Context().Err(); err != nil {
+		tr.Answered = 0
+		tr.HonestOK = false
+		return nil, err
+	}
 	if mode.Transport == "after" {
 		tr.Answered = 0
 		tr.HonestOK = false
